@@ -169,59 +169,67 @@ func isPresenceFunction(fn *ssa.Function) bool {
 }
 
 func presenceHandlesKind(fn *ssa.Function, kind int64) bool {
+	if len(fn.Blocks) == 0 {
+		return false
+	}
+	// Stated over paths, so that nested ifs, one && condition and conditions kept in variables all do: for a field of
+	// that kind that is nil - every `Kind() == K'` is K' == kind, every IsNil() is true, anything else either way - some
+	// path from the entry evaluates IsNil() after a kind test that holds, and ends in the nil (unset) return.
+	val := func(v ssa.Value) (bool, bool) {
+		switch x := v.(type) {
+		case *ssa.BinOp:
+			if x.Op != token.EQL && x.Op != token.NEQ {
+				return false, false
+			}
+			for _, pr := range [][2]ssa.Value{{x.X, x.Y}, {x.Y, x.X}} {
+				call, ok := pr[0].(*ssa.Call)
+				if !ok || reflectValueMethod(call) != "Kind" {
+					continue
+				}
+				if cv, isConst := core.ConstInt(pr[1]); isConst {
+					return (cv == kind) == (x.Op == token.EQL), true
+				}
+			}
+		case *ssa.Call:
+			if reflectValueMethod(x) == "IsNil" {
+				return true, true
+			}
+		}
+		return false, false
+	}
+	// phase 1: from the entry to an IsNil() call; phase 2: from there to the nil return
 	for _, b := range fn.Blocks {
-		if len(b.Instrs) == 0 {
-			continue
-		}
-		ifi, ok := b.Instrs[len(b.Instrs)-1].(*ssa.If)
-		if !ok {
-			continue
-		}
-		bo, ok := ifi.Cond.(*ssa.BinOp)
-		if !ok || (bo.Op != token.EQL && bo.Op != token.NEQ) {
-			continue
-		}
-		var kc ssa.Value
-		var cv int64
-		if v, ok := core.ConstInt(bo.Y); ok {
-			kc, cv = bo.X, v
-		} else if v, ok := core.ConstInt(bo.X); ok {
-			kc, cv = bo.Y, v
-		} else {
-			continue
-		}
-		call, ok := kc.(*ssa.Call)
-		if !ok || reflectValueMethod(call) != "Kind" || cv != kind {
-			continue
-		}
-		target := b.Succs[0]
-		if bo.Op == token.NEQ {
-			target = b.Succs[1]
-		}
-		// an IsNil() test reachable from the edge, whose true edge reaches the nil return
-		for _, nb := range fn.Blocks {
-			if nb != target && !blockReaches(target, nb, nil) {
-				continue
-			}
-			if len(nb.Instrs) == 0 {
-				continue
-			}
-			nif, ok := nb.Instrs[len(nb.Instrs)-1].(*ssa.If)
-			if !ok {
-				continue
-			}
-			nc, ok := nif.Cond.(*ssa.Call)
+		for _, in := range b.Instrs {
+			nc, ok := in.(*ssa.Call)
 			if !ok || reflectValueMethod(nc) != "IsNil" {
 				continue
 			}
-			yes := nb.Succs[0]
-			for _, r := range core.ReturnsOf(fn) {
-				if !core.IsNilConst(core.RetVal(r, 0)) {
-					continue
+			// is the call reached for a nil field of that kind?
+			reachable := core.PathExists(nil, fn.Blocks[0], val, nil, func(tb, _ *ssa.BasicBlock, _ func(ssa.Value) (bool, bool)) bool { return tb == b })
+			if !reachable {
+				continue
+			}
+			// from the call on: the nil return, with the call's result true deciding
+			after := core.PathExists(nil, b, val, nil, func(tb, prev *ssa.BasicBlock, env func(ssa.Value) (bool, bool)) bool {
+				if len(tb.Instrs) == 0 {
+					return false
 				}
-				if r.Block() == yes || blockReaches(yes, r.Block(), nil) {
-					return true
+				r, isRet := tb.Instrs[len(tb.Instrs)-1].(*ssa.Return)
+				if !isRet || len(r.Results) == 0 {
+					return false
 				}
+				v := core.RetVal(r, 0)
+				if phi, isPhi := v.(*ssa.Phi); isPhi && phi.Block() == tb && prev != nil {
+					for i, p := range tb.Preds {
+						if p == prev {
+							v = phi.Edges[i]
+						}
+					}
+				}
+				return core.IsNilConst(v)
+			})
+			if after {
+				return true
 			}
 		}
 	}
@@ -287,8 +295,22 @@ func (c *Ctx) ruleStoreAll(rule string) {
 				case *ssa.MakeClosure:
 					callee, _ = v.Fn.(*ssa.Function)
 				}
-				if callee != nil && callee.Parent() == fn {
-					for _, cb := range callee.Blocks {
+				// a closure of the mapper, or a helper of the package that is handed the field and sets it
+				handedField := false
+				for _, a := range call.Call.Args {
+					if ex, isEx := a.(*ssa.Extract); isEx && ex.Tuple == ssa.Value(lookup) {
+						handedField = true
+					}
+					if a == ssa.Value(lookup) {
+						handedField = true
+					}
+				}
+				if callee != nil && (callee.Parent() == fn || (call != lookup && handedField && core.StaticBody(&call.Call) != nil && len(core.PlainSites(core.StaticBody(&call.Call))) > 0)) {
+					body := callee
+					if callee.Parent() != fn {
+						body = core.StaticBody(&call.Call)
+					}
+					for _, cb := range body.Blocks {
 						for _, cin := range cb.Instrs {
 							if cc, ok := cin.(*ssa.Call); ok && strings.HasPrefix(reflectValueMethod(cc), "Set") {
 								return true
